@@ -3,6 +3,7 @@ package stdlib
 import (
 	"bufio"
 	"io"
+	"math"
 	"os"
 	"rare/pkg/expressions"
 	"strings"
@@ -47,6 +48,8 @@ func kfLoadFile(args []expressions.KeyBuilderStage) (expressions.KeyBuilderStage
 func buildLookupTable(content string, commentPrefix string) map[string]string {
 	lookup := make(map[string]string)
 	scanner := bufio.NewScanner(strings.NewReader(content))
+	// no limit on the length of a line (the default, 64 KiB, silently ended the table at the first longer line)
+	scanner.Buffer(nil, math.MaxInt)
 
 	for scanner.Scan() {
 		line := scanner.Text()
